@@ -33,6 +33,15 @@ Definition f_read (s : fsrc) (size : Z) : fsrc * res bytes :=
   else let chunk := f_chunk s size in
        ({| f_data := f_data s; f_pos := f_pos s + blen chunk; f_closed := false |}, Ok chunk).
 
+(* the chunks an open file hands to successive read(size) calls *)
+Fixpoint f_chunks (s : fsrc) (sizes : list Z) : list bytes :=
+  match sizes with
+  | [] => []
+  | n :: rest =>
+    let c := f_chunk s n in
+    c :: f_chunks {| f_data := f_data s; f_pos := f_pos s + blen c; f_closed := false |} rest
+  end.
+
 Definition f_close (s : fsrc) : fsrc :=
   {| f_data := f_data s; f_pos := f_pos s; f_closed := true |}.
 
